@@ -177,10 +177,39 @@ PROPS["C15"] = P([("lapool", "fast", 0.5), ("lapool", "trace", 0.25), ("lapool",
     expect_probes=["op:copy_construct", "op:copy_assign", "op:move_construct", "op:move_assign", "op:self_assign",
                    "op:copy_default", "caller_threads", "fault:alloc_fail"])
 
+PROPS["C18"] = P([("gridfiles", "asan", 0.8), ("gridfiles", "fast", 0.2)],
+    "histories {generate(params) -> invariants -> every-second-node subgrid -> levels via setup() -> writeToFile(precision) -> "
+    "fault -> load / setup(load_grid_file)} over nr_exp 1..7, ntheta_exp -1..8, anisotropic_factor 0..6, divideBy2 0..3, R0, Rmax, "
+    "refinement radius inside / outside / at the ends of [R0,Rmax] and the CLI default 0, level caps; faults: open_fail, "
+    "write_fail (ENOSPC/EIO), short_write, crash_after_write (clean or torn) at EVERY write index of small grids over the previous "
+    "generation of the files, crash between the two files, truncate, torn last line, delete, empty, flipped byte, stale "
+    "generation, swapped files, appended garbage, nan/inf token, locale comma, read EIO, short reads",
+    "deterministic simulation with file-system fault injection (libc I/O seam) in the ASan+UBSan+assert build; validity "
+    "invariants or exception; strict round trip when fault-free; enumerated crash points",
+    "Accepted parameter sets must yield valid, nested, coarsenable grids with exactly R0/Rmax ends; rejected ones an exception "
+    "(never an assertion, sanitizer report or crash). After any file fault the load either throws or yields a grid satisfying "
+    "the validity invariants. Write-index crash points of small grids are enumerated, the other fault kinds sampled.",
+    quick_runs=1500, quick_budget_s=110, thorough_budget_s=1500,
+    expect_probes=["parameters_accepted", "parameters_rejected", "refinement_radius_outside_domain", "anisotropic",
+                   "round_trip", "load_rejected", "load_accepted", "crash_points_enumerated", "levels_checked",
+                   "solver_loaded_grid", "nesting_checked"])
+PROPS["C20"] = P([("options", "asan", 0.45), ("options", "fast", 0.35), ("cli", "asan", 0.2)],
+    "(a) option vectors through every public setter: all problem triples incl. Culham-free set, grids down to the smallest, "
+    "anisotropic factor with refinement radius anywhere (incl. the CLI default 0), disabled tolerances, zero smoothing steps, zero "
+    "iterations, level caps 1..6, take without caches, 1..12 threads, arbitrary reduction factor, out-of-range enum integers, "
+    "second solve; (b) generated argv for the command-line program run in-process (incl. malformed command lines)",
+    "deterministic simulation in the ASan+UBSan+assert build (rejected-or-completes, no sanitizer/assert/deadlock) and "
+    "memory-poison differential in the fast build (same plan under two heap/stack poison patterns => bit-identical statistics "
+    "and solution)",
+    "Outcome must be an exception / non-zero exit or completion; every statistic must be finite/in range and independent of the "
+    "poison pattern (the deterministic stand-in for MemorySanitizer, which is not usable here).",
+    quick_runs=900, quick_budget_s=120, thorough_budget_s=1800,
+    expect_probes=["completed", "rejected", "both_tolerances_disabled", "zero_iterations", "zero_smoothing_steps", "level_cap_2",
+                   "take_without_caches", "poison_differential", "exit", "returned", "exception"])
+
 NOT_APPLICABLE = {
     "C16": "pure sequential function (A,b)->x: SparseLUSolver factorises in its constructor, solveInPlace is const; no schedule, clock, I/O, fault or history for a simulator to own (DESIGN.md 9.3)",
     "C17": "PolarGrid is an immutable value object built sequentially; every query is a pure function of its arrays (DESIGN.md 9.3)",
     "C19": "closed-form const functions of (r,theta); no state, no parallel region, no I/O (DESIGN.md 9.3)",
 }
-PENDING = {k: "check under construction at this commit (see DESIGN.md section 6); not claimed yet" for k in
-           ["C18", "C20"]}
+PENDING = {}
